@@ -4,14 +4,13 @@ from __future__ import annotations
 
 import numpy as np
 
-from vf.common import exc_site, short_tb
+from vf.common import exc_site, msg_key, short_tb
 from vf.gen import OPS, Prog, ReplayRefused
 from vf.oracles import same
 
 PROPERTY = "C01"
-CLAIMED = False
 WORKERS = {"quick": 16, "thorough": 16}
-CASES = {"quick": 700, "thorough": 40000}
+CASES = {"quick": 2500, "thorough": 60000}
 TIME = {"quick": 50, "thorough": 1100}
 CASE_TIMEOUT = 60
 RULE = (
@@ -50,7 +49,7 @@ def check_var(g, v, ctx, tag="output"):
     try:
         got = v.da.compute()
     except Exception as e:
-        return ("compute_raises", short_tb(e), f"raise:{type(e).__name__}:{exc_site(e)}{z}")
+        return ("compute_raises", short_tb(e), f"raise:{type(e).__name__}:{exc_site(e)}:{msg_key(e)}{z}")
     r = same(v.np, got, v.inx, v.mag, eps=v.eps)
     if r is not None:
         step = g.steps[v.id]
